@@ -121,10 +121,17 @@ func (c *MJHeroComponent) Render(w io.StringWriter) error {
 		return err
 	}
 
+	// With a background image the background declaration is the CSS shorthand (colour, image,
+	// repeat, position / size), written once, in the place of the plain colour.
+	background := backgroundColor
+	if backgroundUrl != "" {
+		background = fmt.Sprintf("%s url('%s') %s %s / cover", backgroundColor, backgroundUrl, backgroundRepeat, backgroundPosition)
+	}
+
 	// Main TD with background and height using HTMLTag builder
 	tdTag := html.NewHTMLTag("td").
 		AddAttribute(constants.AttrHeight, strings.TrimSuffix(effectiveHeight, "px")).
-		AddStyle(constants.CSSBackground, backgroundColor).
+		AddStyle(constants.CSSBackground, background).
 		AddStyle(constants.CSSBackgroundPosition, backgroundPosition).
 		AddStyle(constants.CSSBackgroundRepeat, backgroundRepeat).
 		AddStyle(constants.CSSPadding, padding).
@@ -134,9 +141,6 @@ func (c *MJHeroComponent) Render(w io.StringWriter) error {
 	// Add background image if provided
 	if backgroundUrl != "" {
 		tdTag.AddAttribute(constants.AttrBackground, backgroundUrl)
-		// Add CSS shorthand background for modern email clients
-		shorthandBg := fmt.Sprintf("%s url('%s') %s %s / cover", backgroundColor, backgroundUrl, backgroundRepeat, backgroundPosition)
-		tdTag.AddStyle(constants.CSSBackground, shorthandBg)
 	}
 
 	// Add individual padding overrides (similar to other components)
